@@ -41,6 +41,8 @@ ASSUMPTIONS = [
     "worker processes are outside the property; batch_size=None (no auto-batching) is outside the quantifier 1..n+1)",
     "what a row of a TensorFrame is (coherent selection across columns) is C07; here rows are compared by content",
     "the order drawn by torch's RandomSampler is an input of the model (witnessed from the observed epoch)",
+    "raise demands (see RAISE_DEMANDS): only an out-of-range row index must raise (anywhere, any exception type); torch's "
+    "option checks (batch_sampler + drop_last) may raise or not, and are not compared with the model when they do not",
     "'a user-supplied collate function cannot replace the row-selection collation' and 'each batch equals selecting "
     "its rows' hold of the model by construction (no model function reads kw_collate_fn; loader_epoch is defined as the "
     "gather); for the real class they are OBSERVED by this harness on every run: a recording collate_fn is passed in "
@@ -79,6 +81,21 @@ CLAUSES = [
      ["sampler_form: list / object / tuple / numpy / tensor / generator, keyword or positional",
       "bsampler_form: list / object", "batch_sampler + drop_last (torch rejects)"]),
     ("TensorFrame and Dataset sources", ["*"], ["src=tf / ds / ds_unmat / ds view"]),
+]
+
+# FALSE-ALARM audit of the oracle's "must raise" demands: each with the words of the statement that back it.
+RAISE_DEMANDS = [
+    ("no-raise:sampler / no-raise:batch_sampler (a row index >= n reached the collation and batches were served)",
+     "backed by 'each batch being equal to selecting its rows from the source frame': an index that names no row has no "
+     "selection, so returning normally necessarily breaks the clause.  Only THAT a raise happens is demanded -- at "
+     "construction or during iteration, any exception type; batches served before the offending one are not judged"),
+    ("batch_sampler together with drop_last (torch: ValueError)",
+     "NOT backed: torch's own option check.  The oracle accepts a raise or, if a loader is built, judges its batches as "
+     "the batch sampler's lists; the Coq term (which mirrors torch's raise) is not compared when the implementation "
+     "returned normally"),
+    ("batch_size <= 0, sampler together with shuffle, batch_size=None", "NOT backed and never generated"),
+    ("raises:init:*, raises:<kind>, direct-collate-raises:* are must-NOT-raise demands",
+     "backed by 'yields TensorFrame batches that together contain every row exactly once' for all frames of 0..n rows"),
 ]
 
 # Every raise / assert / try-except / special-case branch / dtype cast of the anchored code (loader.py,
@@ -696,6 +713,8 @@ def oracle(case, obs):
     if kind == "batch_sampler" and case["drop_last"]:
         if "init_exc" in obs:
             return None           # torch's documented restriction (mutually exclusive options), not the property
+    if expect_raise and "init_exc" in obs:
+        return None               # WHERE the out-of-range index is rejected (construction or iteration) is not stated
     if "init_exc" in obs:
         return dict(key=f"raises:init:{'empty-' if n == 0 else ''}{kind}",
                     what=f"DataLoader(...) raised {obs['init_exc']}: {obs.get('msg')}")
@@ -1022,6 +1041,8 @@ def coq_term(case, obs):
     else:
         tf = f"(Some {nl(toks)})" if case["src"] == "ds" else "None"
         src = f"(SrcDataset {{| ds_df := {nl(toks)}; ds_tf := {tf} |}})"
+    if case["batch_sampler"] is not None and case["drop_last"] and "init_exc" not in obs:
+        return None      # torch's option check is mirrored by the model but not demanded by the property
     coll = "(Some (fun _ => Some [4999%nat]))" if case["user_collate"] else "None"
     n = eff_n(case)
     adesc, kdesc = call_desc(case)
